@@ -1302,6 +1302,15 @@ class Translator:
         self.bad(n, 'call outside the subset')
 
 
+KNOWN_METHODS = {
+    'PlayingHistory': {'__init__', 'record', '__getitem__', 'contract', 'history'},
+    'PlayingPhase': {'__init__', 'has_done', 'play_card', 'play_card_by_player', '_record', '_set_next_leader', 'calc_highest',
+                     '_check_has_card', '_check_active_player', 'available_cards', 'current_available_cards'},
+    'PlayingPhaseWithHands': {'__init__', 'play_card_by_player', 'current_available_cards_in_hand'},
+    'ObservedPlayingPhase': {'__init__', 'player', 'hand', 'dummy_hand', 'set_dummy_hand', 'play_card_by_player',
+                             'current_available_cards_in_hand', 'current_available_cards_in_dummy_hand'}}
+
+
 def gen_play_fns(path=None):
     """Translate bridge_env/playing_phase.py of the repository (or the file `path`, for sensitivity studies; the library
     files it relies on are always those of the repository).  Returns (file name under coq/Gen, text), like the other
@@ -1310,7 +1319,10 @@ def gen_play_fns(path=None):
     if path is not None:
         _SRC[REL] = path
     try:
-        tr = Translator(gen.normalise_ifs(parse(REL), 'expr'))
+        tree = gen.normalise_ifs(parse(REL), 'expr')
+        for cname, known in KNOWN_METHODS.items():     # extract-method normal form: helpers the model does not know are read through
+            tree = gen.inline_private_helpers(tree, cname, known)
+        tr = Translator(tree)
         defs = tr.run()
     finally:
         _SRC.pop(REL, None)
